@@ -8,7 +8,7 @@ from ..ref import P, L, to32, le
 
 REQUIRED = ['S>=l', 'S+l', 'smallA:accept', 'smallA:reject', 'smallR', 'mixedA', 'cofactored-only', 'noncanon-R', 'noncanon-A',
             'badkey', 'honest', 'prehash', 'legacy:S-range', 'validationvectors', 'R-undecodable', 'malleable-derived', 'sk-wrapper',
-            'key-ctor:from_bytes', 'key-ctor:try_from-slice', 'key-ctor:bincode', 'key-ctor:json', 'is_weak:small-order', 'is_weak:not', 'key-bytes-kept', 'passthrough-digest']
+            'key-ctor:from_bytes', 'key-ctor:try_from-slice', 'key-ctor:bincode', 'key-ctor:json', 'is_weak:small-order', 'is_weak:not', 'key-bytes-kept', 'passthrough-digest', 'key-ctor:from-point', 'key-ctor:default', 'key-ctor:from-esk', 'ctor-view']
 
 
 def okerr(x):
@@ -38,13 +38,20 @@ def torsion_encodings():
     return out
 
 
-KEY_CTORS = {'': 'key-ctor:from_bytes', 't': 'key-ctor:try_from-slice', 'n': 'key-ctor:bincode', 'j': 'key-ctor:json'}
+KEY_CTORS = {'': 'key-ctor:from_bytes', 't': 'key-ctor:try_from-slice', 'n': 'key-ctor:bincode', 'j': 'key-ctor:json',
+             'p': 'key-ctor:from-point', 'q': 'key-ctor:default'}
+IDENT_ENC = ref.ed_compress(ref.IDENT)
 
 
 def add_verify(ctx, A, msg, sig, cls, ph_ctx=None):
     """emit a verify request with expectation from the predicate (both legacy and non-legacy builds); the key object is
     built through one of the public constructors (array, slice, serde), which must all keep the supplied bytes"""
     how = ctx.rng.choice(['', '', '', 't', 't', 'n', 'j'])
+    Am_ = ref.ed_decompress(A)
+    if Am_ is not None and ref.ed_compress(Am_) == A and ctx.rng.random() < 0.25:
+        how = 'p'           # VerifyingKey::from(EdwardsPoint): only for canonical encodings (the key bytes are re-derived)
+    if A == IDENT_ENC and ctx.rng.random() < 0.5:
+        how = 'q'           # VerifyingKey::default() is the identity key
     Ahex = how + A.hex()
     cls = cls + [KEY_CTORS[how]]
     if ref.ed_decompress(A) is None:
@@ -207,6 +214,51 @@ def sk_wrappers(ctx, n):
                 only=nonlegacy)
 
 
+def ctor_views(ctx, n):
+    """whatever constructor built the key object, its stored bytes, is_weak, Montgomery form and equality with
+    from_bytes(stored bytes) are those of the encoded point; plus keys derived from an ExpandedSecretKey whose scalar is
+    0 mod l (the identity key: weak, refused by verify_strict)"""
+    rng = ctx.rng
+    cands = [(Ab, Am) for Ab, Am, Anc in torsion_encodings() if not Anc]
+    for _ in range(n):
+        cands.append((vals.Pt(rng.randrange(1, L), rng.randrange(8)).encoding(), None))
+    for Ab, Am in cands:
+        Am = Am or ref.ed_decompress(Ab)
+        weak = ref.aff_mul(8, Am) == ref.IDENT
+        mont = to32(ref.ed_to_mont(Am)).hex()
+        for how in ('', 't', 'n', 'j', 'p') + (('q',) if Ab == IDENT_ENC else ()):
+            ctx.add('sig.vk_ctor', how + Ab.hex(), expect=['ok', Ab.hex(), B(weak), mont, 'T', Ab.hex(), Ab.hex()],
+                    cls=[KEY_CTORS[how], 'ctor-view'] + (['is_weak:small-order'] if weak else []))
+    for k in (0,):
+        esk = to32(k) + vals.rb(rng, 32)          # ExpandedSecretKey { scalar: 0, .. } (public fields)
+        msg = vals.rb(rng, 4)
+        # signature by such a key: R = rB, S = r (h*a = 0): accepted by verify, refused by verify_strict (weak key)
+        def chk(t, esk=esk, msg=msg):
+            if t[0] != IDENT_ENC.hex() or t[1] != 'T':
+                return 'key of an ExpandedSecretKey with scalar 0 mod l: bytes %s is_weak %s' % (t[0], t[1])
+            sg = bytes.fromhex(t[2])
+            e = ref.ed_verify_predicate(IDENT_ENC, msg, sg)
+            es = ref.ed_verify_predicate(IDENT_ENC, msg, sg, strict=True)
+            if [t[3], t[4]] != [okerr(e), okerr(es)]:
+                return 'verify / verify_strict under the identity key: expected %s %s got %s %s' % (okerr(e), okerr(es), t[3], t[4])
+            return None
+        ctx.add('sig.esk_key', esk.hex(), hx(msg), expect=chk, cls=['ctor-view', 'key-ctor:from-esk'])
+    for _ in range(n):
+        a = rng.randrange(1, L)
+        esk = to32(a) + vals.rb(rng, 32)
+        msg = vals.rb(rng, 4)
+        Ab = ref.ed_compress(ref.base_mul(a))
+        r = le(vals.sha512(esk[32:] + msg)) % L
+        Rb = ref.ed_compress(ref.base_mul(r))
+        k_ = le(vals.sha512(Rb + Ab + msg)) % L
+        sg = Rb + to32((r + k_ * a) % L)
+        ctx.add('sig.esk_key', esk.hex(), hx(msg), expect=[Ab.hex(), 'F', sg.hex(), 'ok', 'ok'], cls=['ctor-view', 'key-ctor:from-esk'])
+
+
+def B(x):
+    return 'T' if x else 'F'
+
+
 def weak_keys(ctx, n):
     """VerifyingKey::is_weak (what verify_strict refuses) and the stored bytes, for every accepted encoding of every
     small-order point, for mixed-order and for honest keys"""
@@ -278,6 +330,7 @@ def make(seed, size):
     validation_vectors(ctx, max(10, size // 2))
     sk_wrappers(ctx, max(3, size // 8))
     weak_keys(ctx, max(3, size // 8))
+    ctor_views(ctx, max(3, size // 16))
     passthrough_digest(ctx, max(3, size // 8))
     return ctx
 
